@@ -1067,6 +1067,9 @@ class Printer:
             # the literal 2^127 itself is the business of C09; here the value is spelled as an expression
             return "(-170141183460469231731687303715884105727i128 - 1i128)"
         suffix = "" if naked_ok else ty
+        if self.s.lit in ("hex", "bin") and v >= 0 and (naked_ok or is_unsigned_fixed(ty) or ty == "usize"):
+            # forced spelling (the literal-window programs of C01)
+            return ("0x%X" % v if self.s.lit == "hex" else "0b" + bin(v)[2:]) + suffix
         if self.s.lit == "varied" and v >= 0 and r.random() < 0.4:
             form = r.choice(["hex", "bin", "under"])
             if form == "hex":
